@@ -1283,6 +1283,8 @@ func main() {
 		for sc.Scan() {
 			if ac, ok := parseAux(sc.Text()); ok {
 				jobs = append(jobs, func() string { return runAux(ac) })
+			} else if yc, ok := parseTypes(sc.Text()); ok {
+				jobs = append(jobs, func() string { return runTypes(yc) })
 			} else if c, ok := parse(sc.Text()); ok {
 				jobs = append(jobs, func() string { return run(c) })
 			}
@@ -1303,6 +1305,12 @@ func main() {
 			if k%8 == 5 {
 				ac := genAux(root.Fork(uint64(k)))
 				jobs = append(jobs, func() string { return runAux(ac) })
+				continue
+			}
+			if k%16 == 11 {
+				// the tables of api/types.go, driven directly
+				yc := genTypes(root.Fork(uint64(k)))
+				jobs = append(jobs, func() string { return runTypes(yc) })
 				continue
 			}
 			c := gen(root.Fork(uint64(k)), k, total)
